@@ -13,6 +13,10 @@ fn check(name: &str, obs: &Value, exp: &Value) -> Vec<&'static str> {
     if name == "enc" {
         if obs["ok"] != true || obs["bytes"] != exp["bytes"] { why.push("bytes") }
         if obs["len"] != exp["len"] { why.push("len") }
+    } else if name == "xdec" {
+        // the reader consumes exactly what the writer wrote (its length is the writer's business: C08)
+        if exp["ok"] == true { if !(obs["ok"] == true && obs["val"] == exp["val"] && obs["pos"].as_u64() == obs["written"].as_array().map(|a| a.len() as u64)) { why.push("dec") } }
+        else if obs["ok"] == true { why.push("dec") }
     } else if exp["ok"] == true {
         if !(obs["ok"] == true && obs["val"] == exp["val"] && obs["pos"] == exp["pos"]) { why.push("dec") }
     } else if obs["ok"] == true { why.push("dec") }
@@ -35,7 +39,17 @@ fn main() {
                 let c: Value = serde_json::from_str(&line).unwrap();
                 let sid = c["sid"].as_u64().unwrap() as usize;
                 let name = c["name"].as_str().unwrap().to_string();
-                let obs = std::panic::catch_unwind(|| gen_types::run(sid, &name, &c["in"])).unwrap_or(json!({"p": "panic"}));
+                let obs = if name == "xdec" {
+                    // the writer type's real encoder, then the reader type's real decoder
+                    let wsid = c["wsid"].as_u64().unwrap() as usize;
+                    std::panic::catch_unwind(|| {
+                        let enc = gen_types::run(wsid, "enc", &json!({"val": c["in"]["val"]}));
+                        if enc["ok"] != true { return json!({"p": "run", "ok": false, "cls": "encode", "pos": 0}) }
+                        let mut dec = gen_types::run(sid, "dec", &json!({"bytes": enc["bytes"]}));
+                        dec["written"] = enc["bytes"].clone();
+                        dec
+                    }).unwrap_or(json!({"p": "panic"}))
+                } else { std::panic::catch_unwind(|| gen_types::run(sid, &name, &c["in"])).unwrap_or(json!({"p": "panic"})) };
                 n += 1;
                 let why = check(&name, &obs, &c["exp"]);
                 for w in &why { bad += 1; writeln!(out, "{}", json!({"case": c, "obs": obs, "why": w})).unwrap(); }
